@@ -5,6 +5,7 @@ package pointindex
 // for every segment with endpoints on the quarter-pixel lattice of a 4x4 window around a unit pixel.
 
 import (
+	"fmt"
 	"math/big"
 	"testing"
 
@@ -71,7 +72,7 @@ func TestGvcLineIntersectsLattice(t *testing.T) {
 			}
 		}
 	}
-	t.Logf("GVC-LATTICE total=%d mismatches=%d", total, bad)
+	fmt.Printf("GVC-DATA {\"evaluations\": %d, \"mismatches\": %d, \"what\": \"lineIntersects vs exact half-open clipping on the quarter-pixel lattice\"}\n", total, bad)
 	if bad > 0 {
 		t.Errorf("lineIntersects differs from the half-open specification on %d of %d lattice segments, first: %v (spec says %v)", bad, total, first, meetsExact(first, e))
 	}
